@@ -16,6 +16,7 @@ from vloop import ticks
 
 LOCAL_UNICAST = "2001:db8::100"
 LOCAL_MULTICAST = "ff02::fd"
+LOCAL_MULTICAST_V4 = "::ffff:224.0.1.187"   # IPv4 all-CoAP-nodes group as seen on a dual-stack socket
 
 
 def peer(n, port=5683):
